@@ -19,18 +19,17 @@ using GeographicLib::Geocentric; using GeographicLib::LocalCartesian;
 using vh::Ctx; using vh::J; using vh::Section; using ref::q128;
 static const double EPS = std::numeric_limits<double>::epsilon();
 static const double DMAX = std::numeric_limits<double>::max();
-static const double INF = std::numeric_limits<double>::infinity();
 static const double FW = 1 / 298.257223563, AW = 6378137.0;
 
 // ------------------------------------------------------------------ tolerance model (see checks/C07.py)
-// "round-off" residuals are measured in units of eps * max(|r|, a) (position) or eps (matrix entries)
+// "round-off" residuals are measured in units of eps * L, L = max(|r|, a, b) (positions) or eps (matrix entries)
 static const double K_FWD = 4;        // Forward vs closed form
 static const double K_REV = 8;        // forward image of Reverse's result vs the input point ...
 static const double K_Q = 4;          // ... plus this many units in the last place of each returned double (lat, lon, h)
 static const double K_H = 12;         // |h| vs least distance to the ellipsoid (far field alone costs max(1,b/a)/2 <= 5)
 static const double K_ORTH = 6;       // M^T M - I, det M - 1 (two normalisations by hypot: 3 eps each in the worst case)
 static const double K_ORTH_LOC = 8;    // same for LocalCartesian's matrix (product of two rotations)
-static const double K_ENU = 8;        // M columns vs ENU frame at the returned (lat, lon)
+static const double K_ENU = 6;        // M columns vs ENU frame at the returned (lat, lon)
 static const double K_LOC = 8;        // LocalCartesian coordinates / distances / inverses (scale max(|r|,|r0|,a))
 static const double NM_DOC = 7.0;     // documented bound [nm], WGS84, |h| <= 5000 km
 static const double K_NM = 2;         // safety factor on the documented figure
@@ -70,7 +69,7 @@ static Ell pick_ell(vh::Rng& r) {
 // ------------------------------------------------------------------ regime of Geocentric::IntReverse (label only)
 // The predicates below mirror the branch conditions of src/Geocentric.cpp:52-148 in the same double arithmetic;
 // they are used for class labels and reach counters only, never for a verdict.
-struct Regime { std::string name; std::string base; bool singular_branch = false; };
+struct Regime { std::string name; std::string base; };
 static Regime regime(const Ell& E, double X, double Y, double Z, Ctx* c = nullptr) {
   Regime g; const double a = E.a, f = E.f, e2 = f * (2 - f), e2m = (1 - f) * (1 - f), e2a = std::fabs(e2), e4a = e2 * e2, maxrad = 2 * a / EPS;
   double R = std::hypot(X, Y), h = std::hypot(R, Z);
@@ -79,7 +78,7 @@ static Regime regime(const Ell& E, double X, double Y, double Z, Ctx* c = nullpt
   double p = (R / a) * (R / a), q = e2m * ((Z / a) * (Z / a)), r = (p + q - e4a) / 6;
   if (f < 0) std::swap(p, q);
   if (e4a * q == 0 && r <= 0) {
-    g.base = "degenerate"; g.singular_branch = true;
+    g.base = "degenerate";
     bool src_nonzero = f < 0 ? R != 0 : Z != 0;       // the coordinate whose square underflowed
     g.name = (R == 0 && Z == 0) ? "degenerate/centre" : src_nonzero ? "degenerate/q-underflow" : f < 0 ? "degenerate/axis-segment" : "degenerate/disc";
     return g;
@@ -114,16 +113,19 @@ static q128 quantum(const ref::CartEll<q128>& Q, double lat, double lon, double 
 }
 // inputs so close to the centre / axis / equatorial plane that the squares (R/a)^2, (Z/a)^2 formed by the library are
 // sub-normal or underflow (kept under separate, narrow keys)
+// One defect, one key: every Reverse-based monitor that fails inside this zone reports under ZONE_KEY (detail.monitor
+// names the monitor); every matrix monitor that fails because hypot(X,Y) is sub-normal reports under matrix:C07/reverse/*/subnormal-R.
+static const char* const ZONE_KEY = "oracle:C07/reverse/forward-image/subnormal-squares";
+static std::string zkey(const std::string& general, bool uzone) { return uzone ? std::string(ZONE_KEY) : general; }
 static bool underflow_zone(const Ell& E, double R, double Z) {
   return (R != 0 && R < 1e-140 * E.a) || (Z != 0 && std::fabs(Z) < 1e-140 * E.a);
 }
-static J ell_j(const Ell& E) { return J().f("a", E.a).f("f", E.f); }
 static uint64_t ell_h(const Ell& E) { return vh::hmix(vh::hmix(7, E.a), E.f); }
 static bool bits_eq(double a, double b) { return vh::same_bits(a, b); }
 
 // matrix monitors.  e,n,u = expected columns (already expressed in the frame M maps into)
 static void check_matrix(Ctx& c, const std::string& site, const std::string& cls, const std::string& shape, const std::vector<double>& M,
-                         const q128* e, const q128* n, const q128* u, const J& wit, const std::string& keysfx = "", double korth = 4) {
+                         const q128* e, const q128* n, const q128* u, const J& wit, const std::string& keysfx = "", double korth = K_ORTH) {
   long double orth = 0;
   for (int i = 0; i < 3; ++i) for (int j = 0; j < 3; ++j) {
     long double s = 0; for (int k = 0; k < 3; ++k) s += (long double)M[3 * k + i] * (long double)M[3 * k + j];
@@ -137,9 +139,10 @@ static void check_matrix(Ctx& c, const std::string& site, const std::string& cls
   double ee = (double)(me / EPS);
   if (keysfx.empty()) { c.obs(site + " |M^T M - I| [eps]", eo, wit); c.obs(site + " |det M - 1| [eps]", ed, wit); c.obs(site + " |M - ENU| [eps] " + shape, ee, wit); }
   else c.obs(site + " |M^T M - I| [eps] " + keysfx, eo, wit);
-  if (!(eo <= korth)) c.viol("matrix:C07/" + site + "/not-orthonormal" + keysfx, cls, J(wit).f("err_eps", eo));
-  if (!(ed <= korth)) c.viol("matrix:C07/" + site + "/det-not-plus-one" + keysfx, cls, J(wit).f("det_minus_1_eps", ed).f("det", (double)det));
-  if (!(ee <= K_ENU)) c.viol("matrix:C07/" + site + "/not-ENU-at-position" + keysfx, cls, J(wit).f("err_eps", ee));
+  const std::string ksite = keysfx.empty() ? site : std::string("reverse");      // sub-normal R: Geocentric::IntReverse's X/R, Y/R whatever the caller
+  if (!(eo <= korth)) c.viol("matrix:C07/" + ksite + "/not-orthonormal" + keysfx, cls, J(wit).f("err_eps", eo));
+  if (!(ed <= korth)) c.viol("matrix:C07/" + ksite + "/det-not-plus-one" + keysfx, cls, J(wit).f("det_minus_1_eps", ed).f("det", (double)det));
+  if (!(ee <= K_ENU)) c.viol("matrix:C07/" + ksite + "/not-ENU-at-position" + keysfx, cls, J(wit).f("err_eps", ee));
 }
 
 // ------------------------------------------------------------------ monitor: Geocentric::Reverse on one point
@@ -149,11 +152,10 @@ static RevResult check_reverse(Ctx& c, const Ell& E, const Geocentric& G, double
   Regime g = regime(E, X, Y, Z, &c);
   ref::CartEll<q128> Q(E.a, E.f);
   const q128 Rq = hypotq(X, Y), rq = hypotq(Rq, Z), scale = lscale(Q, rq);
-  const bool uzone = underflow_zone(E, (double)Rq, Z); const std::string ksfx = uzone ? "/subnormal-squares" : "";
+  const bool uzone = underflow_zone(E, (double)Rq, Z);
   ref::MinDist<q128> md = ref::cart_mindist<q128>(Q, Rq, (q128)Z);
   const bool singular = md.evo <= 1;                       // inside / on the evolute: several normals through the point
   std::string cls = sec + "/" + g.name + (g.base == "disc>=0" || g.base == "disc<0" ? (md.inside ? "/in" : "/out") : "") + "/" + shape;
-  (void)gcls;
   c.count(cls, vh::hmix(vh::hmix(vh::hmix(ell_h(E), X), Y), Z));
   c.event("reverse: generator " + gcls);
   if (singular) c.event("reverse: point inside/on the evolute (singular region)");
@@ -202,14 +204,15 @@ static RevResult check_reverse(Ctx& c, const Ell& E, const Geocentric& G, double
     // b/a > 2.5: the library's h = (1 - e2m/k1) * ... cancels with amplification ~ (b/a)^2; kept under its own key while the
     // residual stays within that explained amplification, under the general key beyond it
     const double e2m_ = (1 - E.f) * (1 - E.f); const bool sprol = E.f < -1.5 && !uzone && er <= K_REV * e2m_ / 4;
-    if (!(er <= K_REV)) { c.viol("oracle:C07/reverse/forward-image" + (sprol ? std::string("/strongly-prolate") : ksfx), cls, J(w2).f("resid_eps", er).f("resid_m", (double)dres).f("quantum_m", (double)qz));
+    if (!(er <= K_REV)) { c.viol(sprol ? std::string("oracle:C07/reverse/forward-image/strongly-prolate") : zkey("oracle:C07/reverse/forward-image", uzone), cls, J(w2).str("monitor", "forward-image").f("resid_eps", er).f("resid_m", (double)dres).f("quantum_m", (double)qz));
       if (DEBUG_ALL) std::fprintf(stderr, "DBG fwdimg %s a=%.17g f=%.17g X=%.17g Y=%.17g Z=%.17g lat=%.17g h=%.17g er=%.4g\n", cls.c_str(), E.a, E.f, X, Y, Z, lat, h, er); }
     // ---- least-height certificate
     q128 hexp = md.inside ? -md.d : md.d;
     double eh = (double)(fabsq(h - hexp) / (EPS * scale));
     if (!singular) {
       c.obs("reverse |h - (+-)least distance| [eps*max(|r|,a,b)] " + (uzone ? std::string("subnormal-squares zone") : g.base + " " + shape), eh, w2);
-      if (!(eh <= K_H)) { c.viol("cert:C07/reverse/least-height" + ksfx, cls, J(w2).f("err_eps", eh).f("least_distance", (double)md.d).b("inside", md.inside));
+      const bool sprolh = E.f < -1.5 && !uzone && eh <= K_H * (1 - E.f) * (1 - E.f) / 4;      // same cancellation as above, seen through h
+      if (!(eh <= K_H)) { c.viol(sprolh ? std::string("oracle:C07/reverse/forward-image/strongly-prolate") : zkey("cert:C07/reverse/least-height", uzone), cls, J(w2).str("monitor", "least-height").f("err_eps", eh).f("least_distance", (double)md.d).b("inside", md.inside));
         if (DEBUG_ALL) std::fprintf(stderr, "DBG leasth %s a=%.17g f=%.17g X=%.17g Y=%.17g Z=%.17g lat=%.17g h=%.17g eh=%.4g\n", cls.c_str(), E.a, E.f, X, Y, Z, lat, h, eh); }
     } else {
       if (!uzone) c.obs("reverse |h - (+-)least distance| inside singular region (informational) [eps*max(|r|,a,b)] " + shape, eh, w2);
@@ -487,6 +490,12 @@ static void sec_local(Ctx& c, uint64_t idx) {
   double r0d[3]; G.Forward(lat0, lon0, h0, r0d[0], r0d[1], r0d[2]);
   for (int k = 0; k < 3; ++k) F0.r0[k] = r0d[k];
   const q128 r0n = ref::norm3(F0.r0);
+  // the geocentric point LocalCartesian::IntReverse hands to Geocentric::IntReverse, mirrored in double from the library's own
+  // origin and rotation (used only to decide whether that point lies in the sub-normal-squares zone, i.e. for the key)
+  std::vector<double> R0(9); { double t0, t1, t2; G.Forward(lat0, lon0, h0, t0, t1, t2, R0); }
+  auto recon_zone = [&](double x, double y, double z) {
+    double xc = r0d[0] + R0[0] * x + R0[1] * y + R0[2] * z, yc = r0d[1] + R0[3] * x + R0[4] * y + R0[5] * z, zc = r0d[2] + R0[6] * x + R0[7] * y + R0[8] * z;
+    return underflow_zone(E, std::hypot(xc, yc), zc); };
   // origin -> (0,0,0)
   { double x = vh::sentinel(1), y = vh::sentinel(2), z = vh::sentinel(3); LC.Forward(lat0, lon0, h0, x, y, z);
     double eo = (double)(hypotq(hypotq(x, y), z) / (EPS * lscale(Q, r0n)));
@@ -501,7 +510,7 @@ static void sec_local(Ctx& c, uint64_t idx) {
     double gd[3]; G.Forward(la[i], lo[i], hh[i], gd[0], gd[1], gd[2]);
     for (int k = 0; k < 3; ++k) gq[i][k] = gd[k];
     scl[i] = lscale(Q, qmax(ref::norm3(gq[i]), r0n));
-    const bool uz = underflow_zone(E, std::hypot(gd[0], gd[1]), gd[2]); const std::string ksfx = uz ? "/subnormal-squares" : "";
+    bool uz = underflow_zone(E, std::hypot(gd[0], gd[1]), gd[2]);
     double x = vh::sentinel(1), y = vh::sentinel(2), z = vh::sentinel(3); std::vector<double> M(9, vh::sentinel(4));
     LC.Forward(la[i], lo[i], hh[i], x, y, z);
     double x2, y2, z2; LC.Forward(la[i], lo[i], hh[i], x2, y2, z2, M);
@@ -509,6 +518,7 @@ static void sec_local(Ctx& c, uint64_t idx) {
     if (vh::is_sentinel(x, 1) || vh::is_sentinel(y, 2) || vh::is_sentinel(z, 3)) { c.viol("sentinel:C07/local/forward-output-not-written", cls, w); return; }
     if (!(bits_eq(x, x2) && bits_eq(y, y2) && bits_eq(z, z2))) c.viol("law:C07/local/forward-M-overload-differs", cls, w);
     lx[i][0] = x; lx[i][1] = y; lx[i][2] = z;
+    uz = uz || recon_zone(x, y, z);
     q128 ex[3]; F0.to_local(gq[i], ex); q128 L[3] = {x, y, z};
     double er = (double)(ref::dist3c(L, ex) / (EPS * scl[i]));
     c.obs("local: Forward vs [e n u]^T (r - r0) [eps*max(|r|,|r0|,a,b)] " + shape, er, w);
@@ -528,7 +538,7 @@ static void sec_local(Ctx& c, uint64_t idx) {
         q128 B[3]; ref::cart_forward<q128>(Q, l1, o1, h1, B);
         double eb = (double)(qmax(ref::dist3c(B, gq[i]) - K_Q * quantum(Q, l1, o1, h1), 0) / (EPS * scl[i]));
         c.obs("local: Reverse(Forward(p)) position error beyond K_Q ulp of (lat,lon,h) [eps*max(|r|,|r0|,a,b)] " + (uz ? std::string("subnormal-squares zone") : shape), eb, w);
-        if (!(eb <= K_LOC + K_REV)) c.viol("rigid:C07/local/reverse-of-forward" + ksfx, cls, J(w).f("lat1", l1).f("lon1", o1).f("h1", h1).f("err_eps", eb));
+        if (!(eb <= K_LOC + K_REV)) c.viol(zkey("rigid:C07/local/reverse-of-forward", uz), cls, J(w).str("monitor", "local/reverse-of-forward").f("lat1", l1).f("lon1", o1).f("h1", h1).f("err_eps", eb));
         q128 e[3], n[3], u[3], e2[3], n2[3], u2[3]; ref::cart_enu<q128>(Q, l1, o1, e, n, u); mat_local_expect(F0, e, n, u, e2, n2, u2);
         bool Mw = true; for (double m : M2) if (vh::is_sentinel(m, 4)) Mw = false;
         const double Rr = std::hypot(gd[0], gd[1]); const bool subR = Rr != 0 && Rr < 4 * std::numeric_limits<double>::min();
@@ -553,19 +563,19 @@ static void sec_local(Ctx& c, uint64_t idx) {
     J w = J(wit).f("x", x).f("y", y).f("z", z).f("lat1", l1).f("lon1", o1).f("h1", h1);
     q128 xl[3] = {x, y, z}, want[3], got[3]; F0.to_geocentric(xl, want);
     q128 sc = lscale(Q, qmax(ref::norm3(want), r0n));
-    const bool uz = underflow_zone(E, (double)hypotq(want[0], want[1]), (double)want[2]); const std::string ksfx = uz ? "/subnormal-squares" : "";
+    const bool uz = underflow_zone(E, (double)hypotq(want[0], want[1]), (double)want[2]) || recon_zone(x, y, z);
     if (!(std::fabs(l1) <= 90 && std::fabs(o1) <= 180 && std::isfinite(h1))) { c.viol("range:C07/local/reverse-lat-lon", cls, w); continue; }
     ref::cart_forward<q128>(Q, l1, o1, h1, got);
     const q128 qz = K_Q * quantum(Q, l1, o1, h1);
     double er = (double)(qmax(ref::dist3c(got, want) - qz, 0) / (EPS * sc));
     c.obs(std::string("local: Reverse image vs r0 + x e + y n + z u beyond K_Q ulp of (lat,lon,h) [eps*max(|r|,|r0|,a,b)] ") + (uz ? "subnormal-squares zone" : i < 3 ? "axes" : "general"), er, w);
-    if (!(er <= K_LOC + K_REV)) c.viol((i < 3 ? "rigid:C07/local/axes" : "rigid:C07/local/reverse-not-rigid-motion") + ksfx, cls, J(w).f("err_eps", er));
+    if (!(er <= K_LOC + K_REV)) c.viol(zkey(i < 3 ? "rigid:C07/local/axes" : "rigid:C07/local/reverse-not-rigid-motion", uz), cls, J(w).str("monitor", "local/reverse-image").f("err_eps", er));
     double x2, y2, z2; LC.Forward(l1, o1, h1, x2, y2, z2);
     // Forward's own deviation from the closed form at (l1,o1,h1) is not LocalCartesian's: measure it and allow for it
     double gl[3]; G.Forward(l1, o1, h1, gl[0], gl[1], gl[2]); q128 glq[3] = {gl[0], gl[1], gl[2]}; const q128 fd = ref::dist3c(glq, got);
     double ef = (double)(qmax(hypotq(hypotq(x2 - (q128)x, y2 - (q128)y), z2 - (q128)z) - qz - fd, 0) / (EPS * sc));
     c.obs(std::string("local: Forward(Reverse(x)) - x beyond K_Q ulp of (lat,lon,h) [eps*max(|r|,|r0|,a,b)]") + (uz ? " subnormal-squares zone" : ""), ef, w);
-    if (!(ef <= 2 * K_LOC + K_REV)) c.viol("rigid:C07/local/forward-of-reverse" + ksfx, cls, J(w).f("x2", x2).f("y2", y2).f("z2", z2).f("err_eps", ef));
+    if (!(ef <= 2 * K_LOC + K_REV)) c.viol(zkey("rigid:C07/local/forward-of-reverse", uz), cls, J(w).str("monitor", "local/forward-of-reverse").f("x2", x2).f("y2", y2).f("z2", z2).f("err_eps", ef));
   }
   // Reset to another origin == a fresh object (history independence), bit-exactly
   if (!dflt) {
